@@ -322,11 +322,15 @@ impl Drop for Cqueue {
         if let Some(c) = cancel.as_ref() {
             c.disable_cancel();
         }
+        // a select coroutine's panic is re-raised by poll: keep draining first, the other
+        // select coroutines still use the cqueue and the owner's stack
+        let mut panic_data = None;
         loop {
-            match self.poll(None) {
-                Ok(_) => {}
-                Err(_e @ PollError::Finished) => break,
-                _ => unreachable!("cqueue drop unreachable"),
+            match panic::catch_unwind(panic::AssertUnwindSafe(|| self.poll(None))) {
+                Ok(Ok(_)) => {}
+                Ok(Err(_e @ PollError::Finished)) => break,
+                Ok(_) => unreachable!("cqueue drop unreachable"),
+                Err(e) => panic_data = Some(e),
             }
         }
         // an event sender may still be waking us up after it published its event
@@ -335,6 +339,9 @@ impl Drop for Cqueue {
         }
         if let Some(c) = cancel.as_ref() {
             c.enable_cancel();
+        }
+        if let Some(e) = panic_data {
+            panic::resume_unwind(e);
         }
         // we are sure that all the coroutines are finished
     }
@@ -348,14 +355,29 @@ pub fn scope<'a, F, R>(f: F) -> R
 where
     F: FnOnce(&Cqueue) -> R + 'a,
 {
-    let cqueue = Cqueue {
-        ev_queue: Queue::new(),
-        to_wake: AtomicOption::none(),
-        cnt: AtomicUsize::new(0),
-        selectors: Mutex::new(Vec::new()),
-        total: AtomicUsize::new(0),
-        is_panicking: AtomicBool::new(false),
-        busy: AtomicUsize::new(0),
+    // don't wait for the select coroutines while a panic of the body is unwinding: the
+    // thread would count as panicking meanwhile (also for every other coroutine it runs,
+    // which then ignores its cancellation) and the owner may continue on another thread.
+    // catch it, drain with the panics of the select coroutines dropped, raise it again
+    let ret = {
+        let cqueue = Cqueue {
+            ev_queue: Queue::new(),
+            to_wake: AtomicOption::none(),
+            cnt: AtomicUsize::new(0),
+            selectors: Mutex::new(Vec::new()),
+            total: AtomicUsize::new(0),
+            is_panicking: AtomicBool::new(false),
+            busy: AtomicUsize::new(0),
+        };
+        let ret = panic::catch_unwind(panic::AssertUnwindSafe(|| f(&cqueue)));
+        if ret.is_err() {
+            cqueue.is_panicking.store(true, Ordering::Relaxed);
+        }
+        ret
+        // the cqueue is dropped here, in place: the select coroutines point to it
     };
-    f(&cqueue)
+    match ret {
+        Ok(ret) => ret,
+        Err(e) => panic::resume_unwind(e),
+    }
 }
